@@ -24,7 +24,8 @@ RULE = ('sorted fragment sequences (NLA / CHIC / plain Fragment; 1-4 cells; shor
 ASSUMPTIONS = ['precondition of the property: coordinate sorted input and every fragment span + read length shorter than cache_size/2',
                'schedules are the deterministic ejection interval of a single-threaded generator']
 MIN_NONTRIVIAL = {'quick': 1500, 'thorough': 20000}
-REQUIRED_MONITORS = ['event:arrive', 'event:emit', 'emit:before_end_of_input', 'schedule:runs', 'path:alignmentfile', 'oracle:truth_compared']
+REQUIRED_MONITORS = ['event:arrive', 'event:emit', 'emit:before_end_of_input', 'schedule:runs', 'path:alignmentfile', 'oracle:truth_compared',
+                     'eject:rounds_with_ejection', 'eject:rounds_nonprefix', 'eject:rounds_noncontiguous']
 EXHAUSTIVE = {'quick': True, 'thorough': True}
 SHARD_TIMEOUT = {'quick': 900, 'thorough': 7200}
 
@@ -34,19 +35,85 @@ def gen_cases(tier, seed):
     return [{'i': i, 'seed': seed} for i in range(n)]
 
 
+def build_plain_single_end(r, case):
+    """single-end reads for the plain Fragment class: two fragments are the same molecule when sample, strand and UMI match and their start OR
+    their end coincide - so a short read can join a long molecule through its END long after the molecule was opened"""
+    cache = r.choice([1000, 2000])
+    h = cache // 2
+    ln = r.choice([20000, 40000])
+    gen = F.Genome(r, [('chr1', ln)])
+    ref = gen.get('chr1')
+    recs, truths = [], {}
+    rid = 1
+    n_clusters = r.randint(2, 5)
+    origin = r.randrange(100, ln - 8 * h - 100)
+    for _ in range(n_clusters):
+        # clusters overlap: long reads of one cluster advance the position while molecules of its neighbours are still open
+        base = origin + r.randint(0, 3 * h)
+        starts = [base + r.randint(0, 60) for _ in range(r.randint(1, 4))]
+        ends = [base + r.randint(h - 120, 3 * h) for _ in range(r.randint(1, 5))]
+        for _ in range(r.randint(3, 12)):
+            reverse = r.random() < 0.25
+            if r.random() < 0.55:
+                a = r.choice(starts)
+                b = a + r.choice([r.randint(5, 60), r.randint(5, h - 1), r.randint(h - 40, h - 1)])
+            else:
+                b = r.choice(ends)
+                a = b - r.choice([r.randint(5, 60), r.randint(5, h - 1), r.randint(h - 40, h - 1)])
+            a = max(1, a)
+            if b - a < 5 or b - a >= h or b >= ln:
+                continue
+            umi = r.choice(['AAA', 'AAA', 'CCC'])
+            cell = r.choice([1, 1, 2])
+            seq = ref[a:b]
+            recs.append({'name': F.qname(rid, case['i'] + 1, cell, umi), 'flag': 16 if reverse else 0, 'tid': 0, 'pos': a, 'mapq': 60, 'cigar': f'{b - a}M',
+                         'seq': seq, 'qual': [30] * (b - a), 'tags': {}, 'next_tid': -1, 'next_pos': -1})
+            truths[rid] = {'id': rid, 'key': ('single', rid), 'span': (a, b), 'valid': True}
+            rid += 1
+    return 'plain', cache, gen, recs, truths
+
+
 def build_input(r, case):
+    if case['i'] % 5 == 4:
+        return build_plain_single_end(r, case)
     method = r.choice(['nla', 'nla', 'chic', 'plain'])
     cache = r.choice([1000, 2000, 10000])
-    maxfrag = cache // 2 - 60
+    # precondition: every fragment is shorter than the cache radius (cache_size/2). With reads of 40 bp and fragments of >= 50 bp the
+    # never-premature argument holds up to exactly that bound, so the generator goes right up to it.
+    maxfrag = cache // 2 - 1
     ncontig = r.randint(1, 3)
     clen = r.choice([6000, 15000, 40000]) if cache < 10000 else r.choice([40000, 90000])
     contigs = [(f'chr{j + 1}', clen) for j in range(ncontig)]
     big = r.random() < 0.15
     n_sites = r.randint(2, 6) if not big else r.randint(30, 80)
+    site_positions = None
+    copies = (1, 3)
+    umis = (1, 2)
+    frag_len_fn = None
+    frag_range = (50, min(maxfrag, r.choice([120, 400, maxfrag])))
+    if r.random() < 0.45:
+        # dense cluster: many sites within a few fragment lengths of each other and copies of very different lengths, so that a molecule
+        # opened by a short copy is extended by a long one while younger, shorter molecules around it become ejectable first
+        # (the ejectable set is then not a prefix, and not even contiguous, in the buffer)
+        name, ln = contigs[0]
+        base = r.randrange(maxfrag + 100, ln - 2 * maxfrag - 2000)
+        k = r.randint(3, 9) if not big else r.randint(15, 40)
+        site_positions = sorted(set((name, base + r.randint(0, min(1500, 60 * k)) ) for _ in range(k)))
+        copies = (1, 4)
+        umis = (1, 4)
+        frag_range = (50, maxfrag)
+
+        def frag_len_fn(rr, maxfrag=maxfrag):
+            x = rr.random()
+            if x < 0.45:
+                return rr.randint(50, 120)
+            if x < 0.7:
+                return rr.randint(maxfrag - 35, maxfrag)      # just below the cache radius
+            return rr.randint(50, maxfrag)
     gen, recs, truths = F.simulate_library(
         r, method='nla' if method == 'plain' else method, contigs=contigs, n_cells=r.randint(1, 4), n_sites=n_sites, umi_len=3,
-        umis_per_site=(1, 2), copies=(1, 3), case_id=case['i'] + 1, p_clip=0.1, p_invalid=0.0, p_umi_neighbour=0.3,
-        frag_range=(50, min(maxfrag, r.choice([120, 400, maxfrag]))), read_len=40, p_mismatch=0.0)
+        umis_per_site=umis, copies=copies, case_id=case['i'] + 1, p_clip=0.1, p_invalid=0.0, p_umi_neighbour=0.3,
+        frag_range=frag_range, read_len=40, p_mismatch=0.0, site_positions=site_positions, frag_len_fn=frag_len_fn)
     return method, cache, gen, recs, truths
 
 
@@ -58,6 +125,9 @@ def pairs_in_arrival_order(gen, recs):
     out = []
     for rec in srt:
         rid = F.id_from_name(rec['name'])
+        if not rec['flag'] & 1:
+            out.append((rid, rec, None))
+            continue
         if rid in first:
             a, b = first.pop(rid), rec
             r1, r2 = (a, b) if a['flag'] & 64 else (b, a)
@@ -72,6 +142,8 @@ def run_case(case):
     import singlecellmultiomics.molecule as smm
     import singlecellmultiomics.fragment as smf
     from singlecellmultiomics.molecule import MoleculeIterator
+    from singlecellmultiomics.molecule import molecule as mm
+    orig_cby = mm.Molecule.can_be_yielded
     acc = Acc()
     r = rng(case['seed'], 'C07', case['i'])
     method, cache, gen, recs, truths = build_input(r, case)
@@ -90,19 +162,42 @@ def run_case(case):
     for rid, t in truths.items():
         groups[t['key']].add(rid)
     truth_part = set(frozenset(g) for g in groups.values())
-    has_multi = any(len(g) > 1 for g in truth_part)
+    has_multi = any(len(g) > 1 for g in truth_part) or any(t['key'][0] == 'single' for t in truths.values())
     cfg = {'method': method, 'cache_size': cache, 'hamming': d, 'fragments': n, 'contigs': len(gen.refs)}
 
     def execute(every, pooling, source='generator', bam=None):
         events = []
         seq = [0]
+        rounds = {}
+
+        def observed_can_be_yielded(self_, chromosome, position):
+            res = orig_cby(self_, chromosome, position)
+            key = (seq[0], self_.match_hash if pooling == 1 else 0)
+            rounds.setdefault(key, []).append(bool(res))
+            return res
+        mm.Molecule.can_be_yielded = observed_can_be_yielded
+        try:
+            return _execute(every, pooling, source, bam, events, seq)
+        finally:
+            mm.Molecule.can_be_yielded = orig_cby
+            for pattern in rounds.values():
+                if True in pattern:
+                    acc.count('eject:rounds_with_ejection')
+                    first = pattern.index(True)
+                    if first > 0:
+                        acc.count('eject:rounds_nonprefix')
+                    txt = ''.join('T' if x else 'F' for x in pattern).strip('F')
+                    if 'F' in txt:
+                        acc.count('eject:rounds_noncontiguous')
+
+    def _execute(every, pooling, source, bam, events, seq):
 
         def feeder():
             for rid, r1, r2 in pairs:
                 seq[0] += 1
                 events.append(('arrive', seq[0], rid))
                 acc.count('event:arrive')
-                yield (make_seg(header, r1), make_seg(header, r2))
+                yield (make_seg(header, r1), make_seg(header, r2) if r2 is not None else None)
         emitted = []
         n_arrived_at_emit = []
         with contextlib.redirect_stdout(io.StringIO()):
@@ -196,5 +291,5 @@ def run_case(case):
     else:
         acc.count('path:alignmentfile', 0)
     acc.sample = {'config': cfg, 'schedules': len(schedules), 'exhaustive_over_schedules': n <= 60, 'true_molecules': len(truth_part),
-                  'arrival_head': [(rid, truths[rid]['key'][2], truths[rid]['span']) for rid, _, _ in pairs[:5]]}
+                  'arrival_head': [(rid, truths[rid]['key'][-1], truths[rid]['span']) for rid, _, _ in pairs[:5]]}
     return acc
